@@ -1886,7 +1886,9 @@ std::string World::state_key()
     return it != qo.end() ? it->second : -1; // -1: transmission of a query that no longer exists
   };
   char b[512];
-  snprintf(b, sizeof b, "W destroyed=%d src=%d pw=%d dev=%d nreq=%d faults=", (int)destroyed, src_variant, (int)pending_write_notified, deviations, nreq);
+  // the absolute clock is part of the state: metric buckets (1 min .. 1 day) are aligned to absolute time, so two
+  // states that differ only in "now" do not have the same future (found by the de-duplication audit)
+  snprintf(b, sizeof b, "W now=%lld destroyed=%d src=%d pw=%d dev=%d nreq=%d faults=", (long long)now_us, (int)destroyed, src_variant, (int)pending_write_notified, deviations, nreq);
   s += b;
   for (int i = 0; i < FS_NSITES; i++) s += std::to_string(fault[i]);
   s += "\n";
@@ -1924,6 +1926,31 @@ std::string World::state_key()
     s += " ttl=";
     for (auto v : t.ttls) s += std::to_string(v) + ",";
     s += "\n";
+  }
+  // Multi-step requests (search, getaddrinfo, gethostby*, getnameinfo) keep private progress state (candidate index,
+  // no-data counters, partial results) that no header exposes. That state is a function of the sub-query outcomes seen
+  // since the request was issued, so the log of those outcomes goes into the key (found by the de-duplication audit).
+  {
+    long oldest = -1;
+    int  oldest_tx = 0;
+    for (auto &t : toks)
+      if (t.count == 0 && t.kind >= 4 && (oldest < 0 || t.seq_issue < oldest)) {
+        oldest    = t.seq_issue;
+        oldest_tx = t.tx_at_issue;
+      }
+    if (oldest >= 0) {
+      s += "L:";
+      for (size_t i = (size_t)oldest_tx; i < txs.size(); i++) {
+        const Transmission &x = txs[i];
+        int                 oc = -1;
+        for (auto &p : packets)
+          if (p.for_tx == x.id && p.seq_read >= 0) oc = p.kind * 2 + (p.forged ? 1 : 0);
+        snprintf(b, sizeof b, "(%s/%d,%s,%d,%d)", x.q.q.empty() ? "-" : vdns::lower(vdns::name_text(x.q.q[0].labels)).c_str(), x.q.q.empty() ? 0 : x.q.q[0].qtype, x.tcp ? "t" : "u",
+                 (int)x.in_timer, oc);
+        s += b;
+      }
+      s += "\n";
+    }
   }
   if (ch) s += peek_state(ch, now_us, fdmap);
   // what the public callbacks revealed about server health is part of the observable state for C09's reference
